@@ -345,15 +345,66 @@ type RunOut struct {
 	Types map[string]string `json:"types"`
 }
 
+// Run executes the jobs in the runner. A generated method can take the whole process down (stack
+// overflow from unbounded recursion, or a hang): the batch is then bisected until the offending job
+// is isolated, and every call of that job is reported as panicked (fatal), so the crash is an
+// observation instead of an infrastructure failure.
 func (s *Scratch) Run(bin string, jobs []RunJob) (map[string]*RunOut, error) {
 	res := map[string]*RunOut{}
-	err := pipe(bin, s.Dir, 30*time.Minute, jobs, func(m json.RawMessage) error {
-		var r RunOut
-		if err := json.Unmarshal(m, &r); err != nil {
+	var rec func(js []RunJob, timeout time.Duration) error
+	rec = func(js []RunJob, timeout time.Duration) error {
+		if len(js) == 0 {
+			return nil
+		}
+		part := map[string]*RunOut{}
+		err := pipe(bin, s.Dir, timeout, js, func(m json.RawMessage) error {
+			var r RunOut
+			if err := json.Unmarshal(m, &r); err != nil {
+				return err
+			}
+			part[r.Unit] = &r
+			return nil
+		})
+		if err == nil {
+			for k, v := range part {
+				res[k] = v
+			}
+			return nil
+		}
+		if len(js) == 1 {
+			j := js[0]
+			if len(j.Calls) > 1 { // isolate the offending call(s)
+				h := len(j.Calls) / 2
+				a, b := j, j
+				a.Calls, b.Calls = j.Calls[:h], j.Calls[h:]
+				if err := rec([]RunJob{a}, time.Minute); err != nil {
+					return err
+				}
+				first := res[j.Unit]
+				if err := rec([]RunJob{b}, time.Minute); err != nil {
+					return err
+				}
+				second := res[j.Unit]
+				first.Res = append(first.Res, second.Res...)
+				if len(first.Types) == 0 {
+					first.Types = second.Types
+				}
+				res[j.Unit] = first
+				return nil
+			}
+			o := &RunOut{Unit: j.Unit, Prog: j.Prog, Types: map[string]string{}}
+			for range j.Calls {
+				o.Res = append(o.Res, Res{Panic: true, PanicMsg: "FATAL: the runner process died or hung while executing this call: " + tail(err.Error(), 600)})
+			}
+			res[j.Unit] = o
+			return nil
+		}
+		h := len(js) / 2
+		if err := rec(js[:h], 2*time.Minute); err != nil {
 			return err
 		}
-		res[r.Unit] = &r
-		return nil
-	})
+		return rec(js[h:], 2*time.Minute)
+	}
+	err := rec(jobs, 30*time.Minute)
 	return res, err
 }
